@@ -777,7 +777,14 @@ func c12Dists(c *Ctx, p *Prog) {
 	// incomplete beta
 	if fn := p.Fn("internal/stats", "mathBetaInc"); fn != nil {
 		site := p.pos(fn.Pos())
-		outs, why := e6Enumerate(func() *e6Interp { return &e6Interp{PureCall: func(f *types.Func) bool { return true }} }, fn.Blocks[0], nil, nil, 256)
+		// a branching loop-free helper of the package (the prefactor moved out) is evaluated in place; one-block
+		// wrappers (lgamma) and the continued fraction stay uninterpreted, as the reference names them
+		outs, why := e6Enumerate(func() *e6Interp {
+			return &e6Interp{PureCall: func(f *types.Func) bool { return true },
+				Inline: func(f *ssa.Function) bool {
+					return f.Pkg == fn.Pkg && f != fn && f.Parent() == nil && len(naturalLoops(f)) == 0 && len(f.Blocks) >= 2 && len(f.Blocks) <= 8
+				}}
+		}, fn.Blocks[0], nil, nil, 256)
 		if why != "" {
 			c.Undecided(R, "mathBetaInc", site, why)
 		}
